@@ -57,7 +57,12 @@ Proof.
   destruct HP as (_ & _ & Hp).
   unfold ru_add, ru_sub, ru_subin, ru_neg. set (B := 2 ^ w) in *.
   rewrite (mod_add_small a b p), (mod_sub_small a b p), (mod_neg_small a p) by lia.
-  repeat split; stripw B; lia.
+  repeat split; try (stripw B; lia).
+  (* sub: RecInt::sub(r, a, b) wraps when a < b, RecInt::add(r, _p) wraps back *)
+  destruct (Z.ltb_spec a b).
+  - assert (E : (a - b) mod B = a - b + B) by (symmetry; apply Z.mod_unique with (-1); lia).
+    rewrite E. symmetry; apply Z.mod_unique with 1; lia.
+  - apply Z.mod_small; lia.
 Qed.
 
 Lemma ru_mul_exact dbl a b : ru_pre w dbl p -> canon p a -> canon p b -> ru_mul w dbl p a b = (a * b) mod p /\ canon p (ru_mul w dbl p a b).
@@ -83,7 +88,7 @@ Proof.
     + destruct (ru_lin_exact w p true _ c HP Cm Hc) as (-> & _). rewrite Em. apply Z.add_mod_idemp_l. unfold canon in *; lia.
     + destruct (ru_pre_facts _ _ _ HP) as (HB & _ & H2p & Hpp). specialize (Hpp eq_refl). unfold canon in *.
       pose proof (mul_lt_sq a b p Ha Hb). rewrite (Z.mod_small (c + a * b) (2 ^ w)) by nia. f_equal; lia.
-  - (* axmy *) unfold ru_axmy. destruct (ru_lin_exact w p dbl _ c HP Cm Hc) as (_ & _ & -> & _). rewrite Em.
+  - (* axmy *) unfold ru_axmy. destruct (ru_lin_exact w p dbl _ c HP Cm Hc) as (_ & -> & _ & _). rewrite Em.
     apply Zminus_mod_idemp_l.
   - (* maxpy *) unfold ru_maxpy. destruct (ru_lin_exact w p dbl c _ HP Hc Cm) as (_ & -> & _). rewrite Em.
     apply Zminus_mod_idemp_r.
